@@ -41,6 +41,9 @@ def cases(tier, seed):
         add(C09.make(['r'], ['a', 'b'], [edge('r', 'a', g(i), 0), edge('r', 'b', g(j), 1)]), 'shared_source')
         if tier != 'quick' or (i is not None and j is not None and i <= j):
             add(C09.make(['r', 'q'], ['a'], [edge('r', 'a', g(i), 0), edge('q', 'a', g(j), 1)]), 'shared_target')
+            # the same with the edges listed against the declaration order of their (merged) sources, and crossed
+            add(C09.make(['r', 'q'], ['a'], [edge('q', 'a', g(j), 1), edge('r', 'a', g(i), 0)]), 'shared_target_perm')
+            add(C09.make(['r', 'q'], ['a', 'b'], [edge('q', 'a', g(i), 0), edge('r', 'b', g(j), 1)]), 'crossed')
     if tier != 'quick':
         for i, j, k in itertools.product(opts[1:5], repeat=3):
             add(C09.make(['r'], ['a', 'b', 'cc'], [edge('r', 'a', g(i), 0), edge('r', 'b', g(j), 1), edge('r', 'cc', g(k), 2)]),
